@@ -251,19 +251,20 @@ pub fn explore(space: &Space<'_>) -> Report {
                                 }
                                 local_states.insert(out.hash ^ ((ci as u64) << 48) ^ ((pi as u64) << 56));
                                 if let Some((_, step, msg)) = out.viol {
-                                    let mut v = violations.lock().unwrap();
-                                    v.push(ViolRec {
-                                        cfg: entry.cfg.name(),
-                                        params: params.describe(),
-                                        history: history_to_string(&hist),
-                                        len: hist.len(),
-                                        step,
-                                        msg,
-                                        replay_args: replay_args(entry, params, &hist),
-                                    });
-                                    if v.len() >= space.max_violations {
-                                        stop.store(true, Ordering::Relaxed);
-                                    }
+                                    push_viol(
+                                        space,
+                                        &violations,
+                                        &stop,
+                                        ViolRec {
+                                            cfg: entry.cfg.name(),
+                                            params: params.describe(),
+                                            history: history_to_string(&hist),
+                                            len: hist.len(),
+                                            step,
+                                            msg,
+                                            replay_args: replay_args(entry, params, &hist),
+                                        },
+                                    );
                                 } else if space.reset_loop && hist.len() < space.depth && !hist.iter().any(|o| matches!(o, Op::Reset | Op::ResetToStart)) {
                                     bump(&counters.fault_runs);
                                     if let Some(m) = run_reset_loop(entry, &hist, params, 6) {
@@ -402,11 +403,7 @@ fn suffix_sweep(
             }
         }
         if let Some((_, step, msg)) = out.viol {
-            let mut v = violations.lock().unwrap();
-            v.push(ViolRec { cfg: entry.cfg.name(), params: params.describe(), history: history_to_string(hist), len: hist.len(), step, msg, replay_args: replay_args(entry, params, hist) });
-            if v.len() >= space.max_violations {
-                stop.store(true, Ordering::Relaxed);
-            }
+            push_viol(space, violations, stop, ViolRec { cfg: entry.cfg.name(), params: params.describe(), history: history_to_string(hist), len: hist.len(), step, msg, replay_args: replay_args(entry, params, hist) });
             return false;
         }
         true
@@ -440,6 +437,23 @@ fn describe_entry(e: &[u64; 5]) -> String {
 }
 
 #[allow(clippy::too_many_arguments)]
+/// message prefixes of divergences that are recorded as known findings (known_findings.json): only the first
+/// occurrence of each is kept, and they do not count towards the violation budget that stops an exploration
+pub const KNOWN_TAGS: [&str; 2] = ["trait-object reserve: ", "alloc_try_with_mut slot waste: "];
+
+fn push_viol(space: &Space<'_>, violations: &Mutex<Vec<ViolRec>>, stop: &AtomicBool, rec: ViolRec) {
+    let mut v = violations.lock().unwrap();
+    if let Some(tag) = KNOWN_TAGS.iter().find(|t| rec.msg.starts_with(**t)) {
+        if v.iter().any(|x| x.msg.starts_with(*tag)) {
+            return;
+        }
+    }
+    v.push(rec);
+    if v.iter().filter(|x| !KNOWN_TAGS.iter().any(|t| x.msg.starts_with(*t))).count() >= space.max_violations {
+        stop.store(true, Ordering::Relaxed);
+    }
+}
+
 pub fn lockstep(space: &Space<'_>, entry: &ConfigEntry, params: &RunParams, hist: &[Op], reference: &Outcome, counters: &Counters, violations: &Mutex<Vec<ViolRec>>, stop: &AtomicBool) {
     let Some(rt) = reference.trace.as_ref() else { return };
     let mut alt: Vec<Op> = Vec::with_capacity(hist.len() + 1);
